@@ -222,6 +222,8 @@ var sinks = []string{
 	"bare in if", "bare in for", "bare fn body", "bare block helper", "bare contentFor/Of", "bare contentOf default block", "bare partial",
 	// a loop body cut short after the output tag: what it rendered so far travels with the continue / break
 	"before continue", "before break", "before continue in if",
+	// ... in each of the three kinds of loop (slice, map, Iterator), which are evaluated by separate code
+	"before continue in map loop", "before break in map loop", "before continue in iterator loop", "before break in iterator loop", "map loop var", "iterator loop body",
 	// arrays built by the template and emitted whole
 	"array + E emitted whole", "nested arrays emitted whole", "fn returns array emitted whole", "for in for", "fn calls fn", "fn body result held in let",
 	// one block / stored block / partial rendered SEVERAL times in one execution, for trusted and untrusted values in turn
@@ -616,6 +618,24 @@ func build(c Case, dropped bool) (src string, partials map[string]string, parts 
 	case "before continue in if":
 		sb.WriteString("<%= for (i) in [1, 2] { %>[<%= " + e + " %><% if (i == 1) { continue } %>]<% } %>")
 		parts = cat(lit("["), P(), lit("["), P(), lit("]"))
+	case "before continue in map loop":
+		sb.WriteString("<%= for (k, v) in {a: 1, b: 2} { %>[<%= " + e + " %><% continue %>no]<% } %>")
+		parts = cat(lit("["), P(), lit("["), P())
+	case "before break in map loop":
+		sb.WriteString("<%= for (k, v) in {a: 1, b: 2} { %>[<%= " + e + " %><% break %>no]<% } %>")
+		parts = cat(lit("["), P())
+	case "before continue in iterator loop":
+		sb.WriteString("<%= for (i) in range(1, 2) { %>[<%= " + e + " %><% continue %>no]<% } %>")
+		parts = cat(lit("["), P(), lit("["), P())
+	case "before break in iterator loop":
+		sb.WriteString("<%= for (i) in range(1, 2) { %>[<%= " + e + " %><% break %>no]<% } %>")
+		parts = cat(lit("["), P())
+	case "map loop var":
+		sb.WriteString("<%= for (k, x) in {a: " + e + "} { %>[<%= k %>=<%= x %>]<% } %>")
+		parts = cat(lit("[a="), P(), lit("]"))
+	case "iterator loop body":
+		sb.WriteString("<%= for (i) in range(1, 2) { %>[<%= i %>:<%= " + e + " %>]<% } %>")
+		parts = cat(lit("[1:"), P(), lit("][2:"), P(), lit("]"))
 	case "array + E emitted whole":
 		sb.WriteString("[<%= [\"<a>\"] + (" + e + ") %>]")
 		parts = cat(lit("["), []match.Part{match.E("<a>")}, P(), lit("]"))
@@ -697,7 +717,7 @@ func build(c Case, dropped bool) (src string, partials map[string]string, parts 
 // Nests: the output tag sits inside up to four block constructs nested in any order. A path is a list of
 // constructs, outermost first, and a leaf; a construct with a trailing '+' has literal text next to its content
 // (so the enclosing block has several parts), without it the content is all the block holds.
-var nestElems = []string{"if", "else", "for", "fn", "blk", "cfo", "cod", "part"}
+var nestElems = []string{"if", "else", "for", "formap", "foriter", "fn", "blk", "cfo", "cod", "part"}
 var nestLeaves = []string{"bare", "boxed"}
 
 func nest(path []string, e string, P func() []match.Part, partials map[string]string) (string, []match.Part, bool) {
@@ -734,6 +754,10 @@ func nest(path []string, e string, P func() []match.Part, partials map[string]st
 			return "<%= if (false) { %>no<% } else { %>" + in + "<% } %>", ip, true
 		case "for":
 			return "<%= for (i" + id + ") in [1, 2] { %>" + in + "<% } %>", cat(ip, ip), true
+		case "formap":
+			return "<%= for (k" + id + ", v" + id + ") in {a: 1} { %>" + in + "<% } %>", ip, true
+		case "foriter":
+			return "<%= for (i" + id + ") in range(1, 2) { %>" + in + "<% } %>", cat(ip, ip), true
 		case "fn":
 			return "<% let f" + id + " = fn() { %>" + in + "<% } %><%= f" + id + "() %>", ip, true
 		case "blk":
